@@ -15,13 +15,16 @@ OWN_ACTIONS = ("Create", "CreateMTag", "CreateFeature", "CreateProperty", "Delet
 def run(tier, seed, verdict):
     quick = tier != "thorough"
     run_ = mr.ModelRun("MC_C03_quick.cfg" if quick else "MC_C03.cfg", seed,
-                       probes=("lookups", "reopen", "lookups"), name_pools=[0, 1, 2, 3, 4, 5],
+                       probes=("dead_ids", "lookups", "reopen", "lookups"), name_pools=[0, 1, 2, 3, 4, 5],
                        stride=3 if quick else 1).run()
     tlc = run_.res
     if tlc.violation is not None:
         verdict.violation("tlc/" + tlc.violation[:80], {"tlc": tlc.violation, "trace": tlc.error_trace[:60]})
+    # random walks over create / delete churn (TLC -simulate): names re-used after deletion many times in one session
+    sim = mr.ModelRun("MC_SimChurn.cfg", seed + 1, probes=("dead_ids", "lookups", "reopen", "lookups"),
+                      name_pools=[0, 1, 2, 3, 4, 5], simulate="num=%d" % (60 if quick else 600), depth=32).run()
     foreign = 0
-    for f in run_.findings:
+    for f in run_.findings + sim.findings:
         own = (f["stage"] in ("lookup", "ids", "init")
                or (f["action"] in OWN_ACTIONS and f["out"] in ("ok", "refused:DuplicateName") and f["facet"] == "content"))
         if own:
@@ -39,13 +42,17 @@ def run(tier, seed, verdict):
         raise core.MachineryError("vacuity: no duplicate-name refusals or no deletes explored")
     coverage = {
         "states": tlc.distinct, "transitions": run_.stats["exported"],
-        "traces_validated_against_impl": run_.stats["replayed"] - run_.stats["truncated"],
+        "traces_validated_against_impl": run_.stats["replayed"] - run_.stats["truncated"] + sim.stats.get("walks", 0),
         "samples": run_.samples or [{"note": "no sample"}], "exhaustive": run_.stride == 1,
         "evaluations": run_.stats["replayed"], "distinct_nontrivial": run_.stats["replayed"] - run_.stats["truncated"],
         "rule": "every transition of the bounded create/delete state graph is one replay from an empty file; the "
-                "lookup probe runs on every reached state in the session and after reopen; name pools: ascii, "
+                "lookup probe runs on every reached state in the session and after reopen; in addition TLC -simulate walks of 24 "
+                "create / delete calls (names re-used after deletion) are replayed in one session with the ids of deleted "
+                "entities probed after every call through every long-lived handle; name pools: ascii, "
                 "reversed sort order, non-ASCII, 1000-character, dots/backslash, UUID-looking",
         "foreign_facet_mismatches": foreign, "model": cov,
+        "simulation": {"config": "MC_SimChurn.cfg", "walks": sim.stats.get("walks", 0), "steps": sim.stats.get("steps", 0),
+                       "per_action": dict(sorted(sim.per_action.items()))},
         "tlc_properties": ["TypeOK", "NameUnique", "EidUnique", "NoDangling", "RefusedUnchanged", "IdNameStable",
                            "NumbersNeverReused", "DeleteFrame"],
         "checker_cmd": tlc.cmd,
